@@ -50,6 +50,86 @@ def decode_rust(outs):
     return s, None
 
 
+SIZE_BOUNDS = [0, 1, 2, 7, 8, 9, 15, 16, 17, 22, 23, 24, 25, 31, 32, 33, 63, 64, 65, 127, 128, 129, 255, 256, 257, 1023,
+               1024, 1025]
+
+
+def size_boundary_cases(tier):
+    """Equal-content strings / lists / records whose SIZE sits on a boundary an implementation might treat
+    specially (inline vs heap storage, interning, small-vector, hashing thresholds): written as two separate
+    literals, built by concatenation, and with only the last unit different.  (Seed C12-7 of round 4 —
+    interning with an off-by-one at 64 bytes — was missed: the pool had no string longer than 6 bytes.)
+    Each case: (head program binding a and b, expected ten observations, description)."""
+    EQ, LT, GT = "TFFFTTFTFT", "FTFTFTTTFF", "FTTFTFFFTT"
+    out = []
+    bounds = SIZE_BOUNDS if tier == "thorough" else [n for n in SIZE_BOUNDS if n <= 257]
+    for n in bounds:
+        for unit, what in (("a", "ASCII"), ("\u00e9", "2-byte")):
+            k = n if unit == "a" else n // 2
+            if unit != "a" and (n % 2 or k == 0):
+                continue
+            lit = '"' + unit * k + '"'
+            out.append(("a = %s\nb = %s\n" % (lit, lit), EQ, "two %s string literals of %d bytes" % (what, n)))
+            if k >= 2:
+                h1, h2 = '"' + unit * (k // 2) + '"', '"' + unit * (k - k // 2) + '"'
+                out.append(("a = %s\nb = %s + %s\n" % (lit, h1, h2), EQ,
+                            "a %d-byte %s string literal vs the same string built by +" % (n, what)))
+                out.append(("r9 = {k: %s}\na = [r9.k]\nb = [%s + %s]\n" % (lit, h1, h2), EQ,
+                            "%d-byte %s strings inside lists, one read from a record field" % (n, what)))
+            if k >= 1:
+                lit2 = '"' + unit * (k - 1) + ("b" if unit == "a" else "\u00ea") + '"'
+                out.append(("a = %s\nb = %s\n" % (lit, lit2), LT, "%d-byte %s strings differing in the last character" % (n, what)))
+                out.append(("a = %s\nb = %s\n" % (lit2, lit), GT, "%d-byte %s strings differing in the last character (swapped)" % (n, what)))
+        if n <= 257:
+            items = ", ".join(str(i % 7) for i in range(n))
+            out.append(("a = [%s]\nb = [%s]\n" % (items, items), EQ, "two list literals of %d numbers" % n))
+            if n >= 2:
+                out.append(("a = [%s]\nb = [...[%s], ...[%s]]\n" % (items, ", ".join(str(i % 7) for i in range(n // 2)),
+                                                               ", ".join(str(i % 7) for i in range(n // 2, n))), EQ,
+                            "a list literal of %d numbers vs the same list built by spreading" % n))
+            if n >= 1:
+                items2 = ", ".join(str(i % 7) for i in range(n - 1)) + (", " if n > 1 else "") + "9"
+                out.append(("a = [%s]\nb = [%s]\n" % (items, items2), LT, "lists of %d numbers differing in the last element" % n))
+        if 1 <= n <= 129:
+            ents = ", ".join("k%d: %d" % (i, i % 5) for i in range(n))
+            rev = ", ".join("k%d: %d" % (i, i % 5) for i in reversed(range(n)))
+            out.append(("a = {%s}\nb = {%s}\n[a .== b, a .!= b]" % (ents, rev), "TF", "records of %d keys in opposite key order" % n))
+            ents2 = ", ".join("k%d: %d" % (i, (i % 5) if i != n - 1 else 77) for i in range(n))
+            out.append(("a = {%s}\nb = {%s}\n[a .== b, a .!= b]" % (ents, ents2), "FT", "records of %d keys differing in one value" % n))
+    return out
+
+
+def size_boundary_stream(h, res, tier):
+    cases = size_boundary_cases(tier)
+    lines, shape = [], []
+    for head, exp, what in cases:
+        if len(exp) == 2:
+            lines.append(c.hexs(head)); shape.append(1)
+        else:
+            lines.append(c.hexs(head + "[a .== b, a .!= b, ugt(a, b), ult(a, b), ugte(a, b), ulte(a, b)]"))
+            for op in OPS:
+                lines.append(c.hexs(head + "a %s b" % op))
+            shape.append(5)
+    outs = c.harness_lines_resilient(h, "eval", lines)
+    pos, bad = 0, 0
+    for (head, exp, what), k in zip(cases, shape):
+        o = outs[pos:pos + k]; pos += k
+        if k == 1:
+            r = o[0].split(";ENV:")[0].split("|")[-1]
+            got = r[len("OK:L["):-1].replace(",", "") if r.startswith("OK:L[") else r
+        else:
+            got, _err = decode_rust(o)
+        if got != exp:
+            bad += 1
+            if bad <= 3:
+                res.violation("equality / ordering of equal-content (or last-unit-different) values depends on their size: " + what,
+                              {"kind": "impl-law", "program": head + "[a .== b, a .!= b, ugt(a, b), ult(a, b), ugte(a, b), ulte(a, b)]  and  a .< b, a .<= b, a .> b, a .>= b",
+                               "observed": got, "expected": exp, "legend": "eq ne ugt ult ugte ulte lt le gt ge (T/F/E)"})
+    res.streams["SIZES"] = {"cases": len(cases), "violations": bad, "sizes": [n for n in SIZE_BOUNDS if tier == "thorough" or n <= 257],
+                            "kinds": "string literal x2 / literal vs concatenation / inside lists via a record field / last character differs (ASCII and 2-byte) ; list literal x2 / vs spread / last differs ; records: opposite key order / one value differs"}
+    return len(cases)
+
+
 def coq_pair_expr(a, b):
     return ("(let a := %s in let b := %s in "
             "show_bool (dot_eq a b) ++ show_bool (dot_ne a b) ++ show_bool (ugt a b) ++ show_bool (ult a b) ++ "
@@ -245,6 +325,7 @@ def main(argv):
                               {"kind": "impl-law", "program": ali + "[a .== b, a .!= b, ugt(a, b), ult(a, b), ugte(a, b), ulte(a, b)]  and  a .< b, a .<= b, a .> b, a .>= b",
                                "reference_program": lit + "...", "observed": s_ali, "expected": s_lit,
                                "legend": "eq ne ugt ult ugte ulte lt le gt ge (T/F/E)"})
+    n_sizes = size_boundary_stream(h, res, tier)
     # prefix-first
     pp = prefix_pairs(rng, 200 if tier == "quick" else 3000)
     plines = [c.hexs("a = %s\nb = %s\n[a .< b, b .> a, a .== b]" % (a.src(), b.src())) for a, b in pp]
